@@ -1,6 +1,9 @@
 package main
 
 import (
+	"strings"
+	"time"
+	"runtime"
 	"errors"
 	"fmt"
 
@@ -115,4 +118,77 @@ func tripleHistories(c *rt.Ctx, steps []func(w *rt.W)) {
 		w.NT(n * n * n)
 	})
 	c.Require("three-call-history", 1000)
+	randomHistories(c, steps, 4000, 24)
+}
+
+// randomHistories: longer single-threaded histories drawn from the same steps (n histories of the given length): tables
+// of the last few results, move-to-front caches and counters need more than three calls to go wrong.
+func randomHistories(c *rt.Ctx, steps []func(w *rt.W), n, length int) {
+	if len(steps) == 0 {
+		return
+	}
+	c.Serial("random-call-histories", func(w *rt.W) {
+		r := rt.NewRand(c.Seed, "random-histories/"+c.Prop, uint64(len(steps)))
+		for h := 0; h < n; h++ {
+			// a history dwells on a few steps (the same entry is hit again after others came in between)
+			k := 2 + r.Intn(7)
+			pick := make([]int, k)
+			for i := range pick {
+				pick[i] = r.Intn(len(steps))
+			}
+			for i := 0; i < length; i++ {
+				steps[pick[r.Intn(k)]](w)
+			}
+		}
+		w.ClassN("random-call-history", int64(n))
+		w.NT(int64(n))
+	})
+	c.Require("random-call-history", int64(n))
+}
+
+
+// callMustReturn runs f (a call into the library that is a few microseconds of CPU) on its own goroutine. If it has not
+// returned after 15 s, the goroutine's stack is looked at twice, 5 s apart: parked on a lock, channel or semaphore with
+// library frames on it both times, it is blocked for good (a lock taken twice on one call path) - that is reported and
+// the run ends there, because every later call would queue up behind it. Otherwise the run is inconclusive.
+func callMustReturn(w *rt.W, what string, args map[string]any, f func()) bool {
+	done := make(chan struct{})
+	go func() {
+		defer close(done)
+		rt.Call(f)
+	}()
+	select {
+	case <-done:
+		return true
+	case <-time.After(15 * time.Second):
+	}
+	blocked := func() string {
+		buf := make([]byte, 4<<20)
+		n := runtime.Stack(buf, true)
+		for _, g := range strings.Split(string(buf[:n]), "\n\n") {
+			head, _, _ := strings.Cut(g, "\n")
+			if strings.Contains(g, "callMustReturn.func1") && strings.Contains(g, rt.LibraryPrefix) &&
+				(strings.Contains(head, "sync.") || strings.Contains(head, "semacquire") || strings.Contains(head, "chan ") || strings.Contains(head, "select")) {
+				return g
+			}
+		}
+		return ""
+	}
+	s1 := blocked()
+	select {
+	case <-done:
+		return true
+	case <-time.After(5 * time.Second):
+	}
+	s2 := blocked()
+	if s1 != "" && s2 != "" {
+		if len(s2) > 1800 {
+			s2 = s2[:1800]
+		}
+		args["goroutine"] = s2
+		w.Fail("call-never-returns:"+what, "reentrant", args, "still parked inside the library after 20 s:\n"+s2, "the call returns", "a call that is a few microseconds of work is blocked for good inside the library")
+		w.C.Finish()
+	}
+	w.C.Inconclusive(what + ": a call did not return within 20 s and is not visibly parked on a lock inside the library")
+	return false
 }
